@@ -1,0 +1,192 @@
+//go:build verif
+
+package mqtt
+
+import (
+	"sort"
+	"sync/atomic"
+
+	"github.com/mochi-mqtt/server/v2/packets"
+)
+
+// This file is only compiled with the `verif` build tag. It exposes internal state and
+// housekeeping entry points to the verification harness; it changes no behaviour.
+
+// VerifQuiescent reports whether no packet is waiting in, or being written from, any known
+// client's outbound queue.
+func (s *Server) VerifQuiescent() bool {
+	for _, cl := range s.Clients.GetAll() {
+		if len(cl.State.outbound) != 0 || atomic.LoadInt32(&cl.State.outboundQty) != 0 {
+			return false
+		}
+	}
+	return true
+}
+
+// VerifClientQuiescent is VerifQuiescent for one client object (also for objects no longer in Clients).
+func (cl *Client) VerifClientQuiescent() bool {
+	return len(cl.State.outbound) == 0 && atomic.LoadInt32(&cl.State.outboundQty) == 0
+}
+
+// VerifTick runs one housekeeping task with an explicit time.
+func (s *Server) VerifTick(kind string, now int64) {
+	switch kind {
+	case "clients":
+		s.clearExpiredClients(now)
+	case "retained":
+		s.clearExpiredRetainedMessages(now)
+	case "will":
+		s.sendDelayedLWT(now)
+	case "inflight":
+		s.clearExpiredInflights(now)
+	case "sys":
+		s.publishSysTopics()
+	}
+}
+
+// VerifSetMaxPacketID lowers the highest packet identifier the broker allocates (test knob).
+func (s *Server) VerifSetMaxPacketID(n uint32) {
+	s.Options.Capabilities.maximumPacketID = n
+}
+
+// VerifInflight describes one in-flight record.
+type VerifInflight struct {
+	PacketID uint16
+	Type     byte
+	Qos      byte
+	Dup      bool
+	Retain   bool
+	Topic    string
+	Payload  []byte
+	Created  int64
+	Expiry   int64
+	Alias    uint16
+}
+
+// VerifClient describes one entry of the Clients map.
+type VerifClient struct {
+	ID            string
+	Connected     bool
+	TakenOver     bool
+	StopTime      int64
+	Version       byte
+	Clean         bool
+	SEI           uint32
+	SEIFlag       bool
+	WillFlag      uint32
+	Inflight      []VerifInflight
+	SendQuota     int32
+	RecvQuota     int32
+	MaxSendQuota  int32
+	MaxRecvQuota  int32
+	PacketID      uint32
+	Subscriptions []packets.Subscription
+	OutboundLen   int
+}
+
+// VerifSnap is a snapshot of broker state and counters.
+type VerifSnap struct {
+	Clients          []VerifClient
+	InfoConnected    int64
+	InfoSubs         int64
+	InfoRetained     int64
+	InfoInflight     int64
+	InfoInflightDrop int64
+	InfoMsgDropped   int64
+	ActualSubs       int // client (non-shared + shared) subscriptions present in the topic index
+	ActualInline     int
+	ActualRetained   int
+	ActualInflight   int
+	ActualConnected  int
+	WillDelayed      []string
+}
+
+func verifCountSubs(n *particle) (subs, inline int) {
+	subs += n.subscriptions.Len()
+	subs += n.shared.Len()
+	inline += n.inlineSubscriptions.Len()
+	for _, c := range n.particles.getAll() {
+		a, b := verifCountSubs(c)
+		subs += a
+		inline += b
+	}
+	return
+}
+
+// VerifClientSnap snapshots one client object.
+func VerifClientSnap(cl *Client) VerifClient {
+	vc := VerifClient{
+		ID:           cl.ID,
+		Connected:    cl.Net.Conn != nil && !cl.Closed(),
+		TakenOver:    cl.IsTakenOver(),
+		StopTime:     cl.StopTime(),
+		Version:      cl.Properties.ProtocolVersion,
+		Clean:        cl.Properties.Clean,
+		SEI:          cl.Properties.Props.SessionExpiryInterval,
+		SEIFlag:      cl.Properties.Props.SessionExpiryIntervalFlag,
+		WillFlag:     atomic.LoadUint32(&cl.Properties.Will.Flag),
+		SendQuota:    atomic.LoadInt32(&cl.State.Inflight.sendQuota),
+		RecvQuota:    atomic.LoadInt32(&cl.State.Inflight.receiveQuota),
+		MaxSendQuota: atomic.LoadInt32(&cl.State.Inflight.maximumSendQuota),
+		MaxRecvQuota: atomic.LoadInt32(&cl.State.Inflight.maximumReceiveQuota),
+		PacketID:     atomic.LoadUint32(&cl.State.packetID),
+		OutboundLen:  len(cl.State.outbound),
+	}
+	cl.State.Inflight.RLock()
+	for _, p := range cl.State.Inflight.internal {
+		vc.Inflight = append(vc.Inflight, VerifInflight{
+			PacketID: p.PacketID, Type: p.FixedHeader.Type, Qos: p.FixedHeader.Qos, Dup: p.FixedHeader.Dup,
+			Retain: p.FixedHeader.Retain, Topic: p.TopicName, Payload: p.Payload, Created: p.Created, Expiry: p.Expiry,
+			Alias: p.Properties.TopicAlias,
+		})
+	}
+	cl.State.Inflight.RUnlock()
+	sort.Slice(vc.Inflight, func(i, j int) bool { return vc.Inflight[i].PacketID < vc.Inflight[j].PacketID })
+	for _, sub := range cl.State.Subscriptions.GetAll() {
+		vc.Subscriptions = append(vc.Subscriptions, sub)
+	}
+	sort.Slice(vc.Subscriptions, func(i, j int) bool { return vc.Subscriptions[i].Filter < vc.Subscriptions[j].Filter })
+	return vc
+}
+
+// VerifSnapshot returns the current broker state for comparison with the reported statistics.
+func (s *Server) VerifSnapshot() VerifSnap {
+	snap := VerifSnap{
+		InfoConnected:    atomic.LoadInt64(&s.Info.ClientsConnected),
+		InfoSubs:         atomic.LoadInt64(&s.Info.Subscriptions),
+		InfoRetained:     atomic.LoadInt64(&s.Info.Retained),
+		InfoInflight:     atomic.LoadInt64(&s.Info.Inflight),
+		InfoInflightDrop: atomic.LoadInt64(&s.Info.InflightDropped),
+		InfoMsgDropped:   atomic.LoadInt64(&s.Info.MessagesDropped),
+		ActualRetained:   s.Topics.Retained.Len(),
+	}
+	s.Topics.root.Lock()
+	snap.ActualSubs, snap.ActualInline = verifCountSubs(s.Topics.root)
+	s.Topics.root.Unlock()
+	ids := []string{}
+	all := s.Clients.GetAll()
+	for id := range all {
+		ids = append(ids, id)
+	}
+	sort.Strings(ids)
+	for _, id := range ids {
+		cl := all[id]
+		if cl.Net.Inline {
+			continue
+		}
+		vc := VerifClientSnap(cl)
+		snap.Clients = append(snap.Clients, vc)
+		snap.ActualInflight += len(vc.Inflight)
+		if vc.Connected {
+			snap.ActualConnected++
+		}
+	}
+	for id := range s.loop.willDelayed.GetAll() {
+		snap.WillDelayed = append(snap.WillDelayed, id)
+	}
+	sort.Strings(snap.WillDelayed)
+	return snap
+}
+
+// VerifClientOf returns the client object currently registered under id.
+func (s *Server) VerifClientOf(id string) (*Client, bool) { return s.Clients.Get(id) }
